@@ -560,26 +560,139 @@ def unsetAttrs (h : Half) : List String :=
       else ["self.get_tx_arbitration_id", "self.requires_tx_extension_byte", "self.get_tx_extension_byte", "self.is_tx_29bits",
             "self.get_tx_payload_prefix"])
 
-/-- the arguments do not shadow an attribute -/
-theorem initEnv_unset (k : String) (hk : k ∈ ["self.physical_id", "self.functional_id", "self._rx_arbitration_id_physical",
-    "self._rx_arbitration_id_functional", "self.get_rx_arbitration_id", "self.requires_rx_extension_byte",
-    "self.get_rx_extension_byte", "self.is_rx_29bits", "self.get_rx_prefix_size", "self._tx_arbitration_id_physical",
-    "self._tx_arbitration_id_functional", "self.get_tx_arbitration_id", "self.requires_tx_extension_byte",
-    "self.get_tx_extension_byte", "self.is_tx_29bits", "self.get_tx_payload_prefix"]) : initEnv a m k = none := by
-  simp only [List.mem_cons, List.not_mem_nil, or_false] at hk
-  rcases hk with h | h | h | h | h | h | h | h | h | h | h | h | h | h | h | h <;> subst h <;> rfl
-
+/-- `finalEnv` has every expected attribute, and lacks the others -/
 theorem finalEnv_attrs (hm : a.mode = some m) (hk : mkAddress a = .ok h) :
     (∀ kv ∈ rawIdAttrs a ++ otherAttrs h, finalEnv a m h kv.1 = some kv.2) ∧ (∀ k ∈ unsetAttrs h, finalEnv a m h k = none) := by
   obtain ⟨hv, hh⟩ := mkAddress_ok hm hk
-  subst hh
+  have e1 : h.mode = m := by rw [hh]; rfl
+  have e2 : h.rxOnly = a.rxOnly := by rw [hh]; rfl
+  have e3 : h.txOnly = a.txOnly := by rw [hh]; rfl
+  have e4 : h.physId = physVal a m := by rw [hh]; rfl
+  have e5 : h.funcId = funcVal a m := by rw [hh]; rfl
+  clear hh
   cases hr : a.rxOnly <;> cases ht : a.txOnly
-  · cases m <;> (constructor <;>
-      simp [rawIdAttrs, otherAttrs, unsetAttrs, finalEnv, isForMeStage, txStage, rxStage, env13, env11, idsStage, setIds, env8,
-        rxNip, txNip, nipName, nip, set_get, mkHalf, hr, ht, Mode.hasPrefix, Mode.is29, Half.rxPrefixSize, initEnv_unset])
-  · sorry
-  · sorry
-  · simp [validateAddr, hm, hr, ht] at hv
+  case true.true => simp [validateAddr, hm, hr, ht] at hv
+  all_goals
+    cases m <;> constructor <;>
+    simp [rawIdAttrs, otherAttrs, unsetAttrs, e1, e2, e3, e4, e5, hr, ht, Half.rxPrefixSize, Mode.hasPrefix, Mode.is29] <;>
+    and_intros <;>
+    (simp [finalEnv, isForMeStage, txStage, rxStage, env13, env11, idsStage, setIds, env8, rxNip, txNip,
+      nipName, nip, set_get, hr, ht, Mode.hasPrefix, Mode.is29, Half.txPrefix, e1] <;> rfl)
+
+/-! ### the five identifier / address-byte attributes: the argument itself vs. the model's `Option Nat` -/
+
+def isBoolV : PyVal → Bool
+  | .bool _ => true
+  | _ => false
+
+/-- none of `txid`, `rxid`, `target_address`, `source_address`, `address_extension` is a Python `bool` -/
+def noBoolArgs (a : AddrArgs) : Bool :=
+  !isBoolV a.txid && !isBoolV a.rxid && !isBoolV a.ta && !isBoolV a.sa && !isBoolV a.ae
+
+/-- what `validate` guarantees of each of the five: `None` or a non-negative `int` (`bool` included, as `isinstance(True, int)`) -/
+def okVal (v : PyVal) : Bool := v.isNone || (v.isInt && decide (0 ≤ v.intVal))
+
+theorem okVal_of_byteOk {v : PyVal} (h : byteOk v = true) : okVal v = true := by
+  simp [byteOk, okVal] at h ⊢; rcases h with h | h <;> simp [h]
+theorem okVal_of_idOk {b : Bool} {v : PyVal} (h : idOk b v = true) : okVal v = true := by
+  simp [idOk, okVal] at h ⊢; rcases h with h | h <;> simp [h]
+
+theorem valid_okVals {a : AddrArgs} (hv : validateAddr a = true) :
+    okVal a.txid = true ∧ okVal a.rxid = true ∧ okVal a.ta = true ∧ okVal a.sa = true ∧ okVal a.ae = true := by
+  unfold validateAddr at hv
+  split at hv
+  · simp at hv
+  · simp only [Bool.and_eq_true] at hv
+    obtain ⟨⟨⟨⟨⟨_, h3⟩, h4⟩, h5⟩, h6⟩, h7⟩ := hv
+    exact ⟨okVal_of_idOk h6, okVal_of_idOk h7, okVal_of_byteOk h3, okVal_of_byteOk h4, okVal_of_byteOk h5⟩
+
+/-- a validated argument that is not a `bool` IS the model's value -/
+theorem py_eq_optPV {v : PyVal} (hok : okVal v = true) (hb : isBoolV v = false) : PV.sc (.py v) = optPV (optNat v) := by
+  cases v <;> simp_all [okVal, isBoolV, optNat, optPV, PyVal.isNone, PyVal.isInt, PyVal.intVal]
+  have := of_decide_eq_true hok
+  omega
+
+/-- in any case it is Python-`==` to the model's value (`True == 1`, `False == 0`) -/
+theorem py_pvEq_optPV {v : PyVal} (hok : okVal v = true) : pvEq (.sc (.py v)) (optPV (optNat v)) = true := by
+  cases v with
+  | bool b => cases b <;> rfl
+  | int i =>
+    have : 0 ≤ i := by
+      simp [okVal, PyVal.isNone, PyVal.isInt, PyVal.intVal] at hok; exact of_decide_eq_true hok
+    simp [optNat, optPV, PyVal.isNone, PyVal.intVal, Int.toNat_of_nonneg this]
+  | none => rfl
+  | _ => simp [okVal, PyVal.isNone, PyVal.isInt] at hok
+
+theorem rawIdAttrs_eq (hm : a.mode = some m) (hk : mkAddress a = .ok h) (hnb : noBoolArgs a = true) :
+    rawIdAttrs a = idAttrs h := by
+  obtain ⟨hv, hh⟩ := mkAddress_ok hm hk
+  obtain ⟨o1, o2, o3, o4, o5⟩ := valid_okVals hv
+  simp only [noBoolArgs, Bool.and_eq_true, Bool.not_eq_true'] at hnb
+  obtain ⟨⟨⟨⟨b1, b2⟩, b3⟩, b4⟩, b5⟩ := hnb
+  subst hh
+  simp only [rawIdAttrs, idAttrs, mkHalf, py_eq_optPV o1 b1, py_eq_optPV o2 b2, py_eq_optPV o3 b3, py_eq_optPV o4 b4,
+    py_eq_optPV o5 b5]
+
+theorem rawIdAttrs_pyEq (hm : a.mode = some m) (hk : mkAddress a = .ok h) :
+    ∀ p ∈ (rawIdAttrs a).zip (idAttrs h), p.1.1 = p.2.1 ∧ pvEq p.1.2 p.2.2 = true := by
+  obtain ⟨hv, hh⟩ := mkAddress_ok hm hk
+  obtain ⟨o1, o2, o3, o4, o5⟩ := valid_okVals hv
+  subst hh
+  simp [rawIdAttrs, idAttrs, mkHalf, py_pvEq_optPV, *]
+
+/-! ### main theorems -/
+
+/-- the attribute names `halfEnv` defines (the view of the object the other agreement theorems start from) -/
+def halfAttrKeys : List String :=
+  ["self._addressing_mode", "self._is_29bits", "self._txid", "self._rxid", "self._target_address", "self._source_address",
+   "self._address_extension", "self._rx_only", "self._tx_only", "self.physical_id", "self.functional_id"]
+
+theorem halfEnv_agree (env : Env) (h1 : ∀ kv ∈ expectedAttrs h, env kv.1 = some kv.2) (h2 : ∀ k ∈ unsetAttrs h, env k = none) :
+    ∀ k ∈ halfAttrKeys, env k = halfEnv h k := by
+  have a1 := h1 ("self._addressing_mode", modePV h.mode) (by simp [expectedAttrs, otherAttrs])
+  have a2 := h1 ("self._is_29bits", pbool h.mode.is29) (by simp [expectedAttrs, otherAttrs])
+  have a3 := h1 ("self._txid", optPV h.txid) (by simp [expectedAttrs, idAttrs])
+  have a4 := h1 ("self._rxid", optPV h.rxid) (by simp [expectedAttrs, idAttrs])
+  have a5 := h1 ("self._target_address", optPV h.ta) (by simp [expectedAttrs, idAttrs])
+  have a6 := h1 ("self._source_address", optPV h.sa) (by simp [expectedAttrs, idAttrs])
+  have a7 := h1 ("self._address_extension", optPV h.ae) (by simp [expectedAttrs, idAttrs])
+  have a8 := h1 ("self._rx_only", pbool h.rxOnly) (by simp [expectedAttrs, otherAttrs])
+  have a9 := h1 ("self._tx_only", pbool h.txOnly) (by simp [expectedAttrs, otherAttrs])
+  by_cases hc : h.mode = .nf29 ∨ h.mode = .m29
+  · have a10 := h1 ("self.physical_id", pint h.physId) (by simp [expectedAttrs, otherAttrs, hc])
+    have a11 := h1 ("self.functional_id", pint h.funcId) (by simp [expectedAttrs, otherAttrs, hc])
+    simp at a1 a2 a3 a4 a5 a6 a7 a8 a9 a10 a11
+    simp [halfAttrKeys, halfEnv, *]
+  · have a10 := h2 "self.physical_id" (by simp [unsetAttrs, hc])
+    have a11 := h2 "self.functional_id" (by simp [unsetAttrs, hc])
+    simp at a1 a2 a3 a4 a5 a6 a7 a8 a9
+    simp [halfAttrKeys, halfEnv, *]
+
+/-- **Construction (unqualified form)**: for ALL arguments that `mkAddress` accepts, the constructor returns `None` and the object has:
+    the five identifier / address-byte attributes equal to the ARGUMENTS themselves, each Python-`==` to the model's field
+    (literally equal unless the argument is a `bool`: see `Address_init_constructs` / `bool_argument_kept_as_bool`),
+    every other attribute exactly as the model object says, and none of the attributes of `unsetAttrs`. -/
+theorem Address_init_constructs_raw (hm : a.mode = some m) (hk : mkAddress a = .ok h) :
+    ∃ env', runFn (initMeths a) (initEnv a m) Src.Address_init = .ok (pnone, env') ∧
+      (∀ kv ∈ rawIdAttrs a ++ otherAttrs h, env' kv.1 = some kv.2) ∧
+      (∀ p ∈ (rawIdAttrs a).zip (idAttrs h), p.1.1 = p.2.1 ∧ pvEq p.1.2 p.2.2 = true) ∧
+      (∀ k ∈ unsetAttrs h, env' k = none) :=
+  ⟨finalEnv a m h, Address_init_run a m h hm hk, (finalEnv_attrs a m h hm hk).1, rawIdAttrs_pyEq a m h hm hk,
+    (finalEnv_attrs a m h hm hk).2⟩
+
+/-- **Construction**: when none of the five identifier / address-byte arguments is a `bool`, the constructed object is literally the
+    model object: every attribute of `expectedAttrs h` has the model's value, the attributes of `unsetAttrs h` do not exist, and
+    the object agrees with `halfEnv h` on every attribute `halfEnv` defines. -/
+theorem Address_init_constructs (hm : a.mode = some m) (hk : mkAddress a = .ok h) (hnb : noBoolArgs a = true) :
+    ∃ env', runFn (initMeths a) (initEnv a m) Src.Address_init = .ok (pnone, env') ∧
+      (∀ kv ∈ expectedAttrs h, env' kv.1 = some kv.2) ∧
+      (∀ k ∈ unsetAttrs h, env' k = none) ∧
+      (∀ k ∈ halfAttrKeys, env' k = halfEnv h k) := by
+  have h1 : ∀ kv ∈ expectedAttrs h, finalEnv a m h kv.1 = some kv.2 := by
+    rw [expectedAttrs, ← rawIdAttrs_eq a m h hm hk hnb]
+    exact (finalEnv_attrs a m h hm hk).1
+  have h2 := (finalEnv_attrs a m h hm hk).2
+  exact ⟨finalEnv a m h, Address_init_run a m h hm hk, h1, h2, halfEnv_agree h _ h1 h2⟩
 
 end result
 
